@@ -376,7 +376,11 @@ impl<'a> Interp<'a> {
                         Err(vec![leaf(LeafKind::BadValue, Where::Nowhere, &name)])
                     }
                 }
-                VBody::Newtype(t) => self.from_meta(t, it).map(|p| enum_value(r, v, p)).map_err(|l| prefix(l, &vn)),
+                VBody::Newtype(_) => {
+                    // the only field is converted like any field: its own with / map / and_then apply
+                    let f = v.newtype_field().unwrap();
+                    self.convert_field(&f, it).map(|p| enum_value(r, v, p)).map_err(|l| prefix(l, &vn))
+                }
                 VBody::Struct(fs) => {
                     let Kind::List(inner) = &it.kind else {
                         return Err(vec![leaf(LeafKind::BadValue, Where::Nowhere, &name)]);
